@@ -14,6 +14,7 @@ LEVEL_TEXT = ("Static structural proof of necessary conditions: (R5.1) each publ
               "element names, MediaWiki section markers, TSV row shapes/columns, escape pairs and the '-#' suffix "
               "agree between writer and reader; (R5.5) every attribute-emission loop consults the attribute filter. "
               "Equality after reload, cross-format agreement of contents and library/unmerged selection are NOT decided.")
+LEVEL_EXTRA = "Added after the seeded evaluation: (R5.4) also the escape context of each writer/reader pair; (R5.6) no stale per-entry state in the writers' traversal loops (two frozen exceptions); (R5.7) every TSV read of the loaders takes cells verbatim as text."
 
 SERIALIZERS = ["get_as_mediawiki_string", "get_as_xml_string", "get_as_dataframes",
                "save_as_mediawiki", "save_as_xml", "save_as_dataframes"]
